@@ -204,7 +204,10 @@ class bound_composite_array(base_array):
         cursor = 0
         if not self._SIZE and not self._BOUND:
             while (pos + cursor) < len(data):
-                cursor += self.add()._decode_impl(data, pos + cursor, endianness, terminal=False)
+                size = self.add()._decode_impl(data, pos + cursor, endianness, terminal=False)
+                if not size:
+                    raise ProphyError("greedy array of zero-size elements cannot consume the remaining bytes")
+                cursor += size
         else:
             for _ in xrange(len_hint):
                 cursor += self.add()._decode_impl(data, pos + cursor, endianness, terminal=False)
